@@ -8,7 +8,14 @@ import os, sys
 REPO = os.path.abspath(os.environ.get("VERIF_REPO", "/repo"))
 VERIF = os.path.dirname(os.path.dirname(os.path.abspath(__file__)))
 
+_BOOTED = None
+
+
 def boot():
+    """idempotent: a second call must not re-import the package (two generations of its classes would coexist)"""
+    global _BOOTED
+    if _BOOTED is not None:
+        return _BOOTED
     root = REPO
     try:
         import __editable___atsim_potentials_0_4_1_finder as f
@@ -33,4 +40,5 @@ def boot():
     logging.disable(logging.CRITICAL)
     import atsim.potentials as p
     assert os.path.abspath(p.__file__).startswith(root + "/"), (p.__file__, root)
+    _BOOTED = p
     return p
